@@ -266,7 +266,7 @@ func checkC20(c *Check) {
 	runRows(c, "MC_Api", stdCfg(c.Tier, "RunIsTruthOfExecute"), func(row *Row) {
 		replayApiRow(c, row)
 	})
-	// driver corpus: scripts over JSON documents, incl. run-time faults, unknown kinds, malformed scripts and documents, files holding more than one document or trailing text
+	// driver corpus: scripts over JSON documents, incl. run-time faults, unknown kinds, malformed scripts and documents, results holding per-cent signs, files holding more than one document or trailing text
 	docs := []string{`{"Name":"x","N":3,"Ok":true,"Tags":["a","b"],"Inner":{"k":1.5},"Nil":null}`, `{}`, ``, `{"N":-2.5,"Name":""}`, `{"N":[1,[2,3],{"a":null}],"Name":{"deep":{"deeper":[true]}}}`, `[1,2]`, `{"N":`,
 		// files which are not ONE document: two documents, JSON lines, stray closers and trailing text
 		`{"N":1,"Name":"one"}{"N":2,"Name":"two"}`, "{\"N\":1,\"Name\":\"one\"}\n{\"N\":2,\"Name\":\"two\"}\n", `{"N":1,"Name":"one"} }`, `{"N":1,"Name":"one"},`, `{"N":1,"Name":"one"} trailing`, "{\"N\":1}\n\n  \n"}
@@ -274,7 +274,7 @@ func checkC20(c *Check) {
 		`return Name;`, `return N;`, `return N + 1;`, `return Ok;`, `return Tags;`, `return Inner;`, `return Nil;`, `return Missing;`,
 		`return len(Tags) == 2 && Ok;`, `if ( N > 2 ) { return "big"; } return "small";`, `return 1 / 0;`, `return N["x"];`, `panic("boom");`,
 		`foreach t in Tags { print(t, "\n"); } return false;`, `return √9;`, `return 3 +;`, `return "abc`, `function f(a) { return f(a); } return f(1);`,
-		`x = 70000; x++; return x;`, `return {"a": N, "b": [Ok, Name]};`, `return type(Inner) + type(Nil);`, `while ( true ) { }`, ``, `}`, `return Tags[5];`,
+		`x = 70000; x++; return x;`, `return "100%";`, `return ["93% full", "%d", Name];`, `return "%s %v %!" + "%";`, `return {"rate": "5%"};`, `return {"a": N, "b": [Ok, Name]};`, `return type(Inner) + type(Nil);`, `while ( true ) { }`, ``, `}`, `return Tags[5];`,
 		`switch ( Name ) { case "x" { return 1; } default { return 2; } }`, `return 1.5 * 2;`, `return Name ~= /^X/i;`,
 	}
 	var cases []driverCase
